@@ -154,6 +154,21 @@ def is_try(prog, fn):
         sn = oracle.snake_with_digits(v.ident)
         if f in ('is_' + sn, 'try_as_' + sn, 'try_as_%s_ref' % sn):
             target = v
+    if target is None and ' on ' in fn:
+        # Kani twin `is_<V>`: every predicate / try_as on the value of variant V
+        vn = fn.split(' on ')[-1].strip()
+        vv = [x for x in prog.variants if x.ident == vn]
+        if not vv:
+            return None
+        v = vv[0]
+        val = value_of(prog, v)
+        for w in prog.enabled():
+            sn = oracle.snake_with_digits(w.ident)
+            if 'EnumIs' in prog.derives:
+                L.append('    { let v: En = %s; ' % val + chk('v.is_%s()' % sn, 'true' if w is v else 'false', 'is_%s on %s::%s' % (sn, prog.name, v.ident))[6:])
+            if 'EnumTryAs' in prog.derives and w.kind == 'tuple' and w.fields:
+                L.append('    { let v: En = %s; ' % val + chk('v.try_as_%s_ref().is_some()' % sn, 'true' if w is v else 'false', 'try_as_%s_ref on %s::%s' % (sn, prog.name, v.ident))[6:])
+        return wrap(prog, '\n'.join(L)) if L else None
     if target is None:
         return None
     for v in prog.variants:
